@@ -22,6 +22,15 @@ CLAIMED["C01"] = ("finite-domain abstract interpretation (decision table), linea
     "structural necessary conditions of the scoring clause: padding/resize/zip forms, bias fill, scorer pipeline and "
     "dispatcher totality, no-suffix iterator <-> suffix-merged weights pairing, add_score position/offset forms. "
     "Numeric equality of the sums is not decided.", "DESIGN.md §4 C01")
+CLAIMED["C10"] = ("finite-domain abstract interpretation (label filter table), who-may-write scan, linear forms + twin comparison of the feature loops",
+    "Complete decision of the example/label clause (annotated boundary -> exactly one example with its own label, Unknown -> none) "
+    "and structural decision of the feature-window forms (ranges, relative positions, substring bounds, dictionary feature "
+    "positions/guards/length bucket) incl. char/type twin agreement. The feature multiset as a value is not decided.", "DESIGN.md §4 C10")
+CLAIMED["C09"] = ("kind/role flow analysis over linear forms of the MIR (char<->type), twin comparison, dictionary role flow",
+    "Decides the necessary structural conditions that each learned weight lands where the predictor reads it: kind purity of the "
+    "two n-gram arms (window of its own kind), position/length forms, Model::new/TagTrainer::new/scorer constructor argument "
+    "flows, Left/Inside/Right -> first/fill/last, bucket index agreement, bias provenance and shared quantiser. "
+    "Numeric equality with liblinear's coefficients is not decided.", "DESIGN.md §4 C09")
 NOT_YET = {}
 
 def main():
